@@ -58,6 +58,27 @@ Lemma iter_fixed_stays {A} (q : A -> A) a n :
 Proof. intros E m Hm. induction Hm as [|m Hm IH]; [reflexivity|].
   change (q (Nat.iter m q a) = Nat.iter n q a). rewrite IH. exact E. Qed.
 
+(* ---------- walking a generated top-level let-chain ---------- *)
+(* The generated let-chain is walked one binding at a time, every bound value becoming a local definition, so that no
+   term is ever duplicated.  `res_is a c r`: the solver result r is Ok with traveltime grid a and vzero c. *)
+Section ResIs.
+Context {T : Type}.
+Definition res_is (a : arr T) (c : T) (r : res (arr T * arr T * T)) : Prop :=
+  match r with Ok (a', _, c') => a' = a /\ c' = c | _ => False end.
+Lemma res_is_if a c (cond : bool) x y : cond = true -> res_is a c y -> res_is a c (if negb cond then x else y).
+Proof. intros ->. exact (fun h => h). Qed.
+Lemma res_is_ex a c r : res_is a c r -> exists G, r = Ok (a, G, c).
+Proof. destruct r as [[[a' G] c']| |]; cbn; try contradiction. intros [-> ->]. exists G. reflexivity. Qed.
+End ResIs.
+
+Ltac let_intro :=
+  lazymatch goal with
+  | |- res_is ?a ?c (let x := ?v in @?F x) =>
+      let y := fresh x in pose (y := v); change (res_is a c (F y)); cbv beta
+  | |- (let x := ?v in @?F x) = ?r =>
+      let y := fresh x in pose (y := v); change (F y = r); cbv beta
+  end.
+
 (* ---------- shapes are preserved: a unary walk through generated let-chains ---------- *)
 (* shape and data length of an array *)
 Definition sig {A} (a : arr A) : list Z * nat := (shape a, length (dat a)).
@@ -230,32 +251,21 @@ Definition i_ttgrad grad : arr T := snd (fst (p2 grad)).
 Definition i_ttsgn grad : arr Z := snd (p2 grad).
 
 (* the state before the first sweep: (tt, ttsgn, zsi, xsi, zsa, xsa, vzero, nz, nx, ttgrad); no dependence on nsweep *)
-Definition init2d (grad : bool) :=
+Definition init2d (grad : bool) : init_state :=
   (i_tt grad, i_ttsgn grad, i_zsi grad, i_xsi grad, i_zsa grad, i_xsa grad, i_vzero grad, i_nz grad, i_nx grad,
    i_ttgrad grad).
+
+Definition init_state : Type := (arr T * arr Z * Z * Z * T * T * T * Z * Z * arr T)%type.
+Definition st_tt (st : init_state) : arr T := fst (fst (fst (fst (fst (fst (fst (fst (fst st)))))))).
+Definition st_ttsgn (st : init_state) : arr Z := snd (fst (fst (fst (fst (fst (fst (fst (fst st)))))))).
+Definition st_vzero (st : init_state) : T := snd (fst (fst (fst st))).
 
 (* one pass of the sweeping loop, on the state (tt, ttsgn) *)
 Definition pass2d (grad : bool) (st : arr T * arr Z) : arr T * arr Z :=
   sweep2d (fst st) (snd st) slow dz dx (nofZ (i_zsi grad)) (nofZ (i_xsi grad)) (i_zsa grad) (i_xsa grad)
           (i_vzero grad) (i_nz grad) (i_nx grad) grad.
 
-(* characterisation of fteik2d used by everything below.  The generated let-chain is walked one binding at a time,
-   every bound value becoming a local definition, so that no term is ever duplicated. *)
-Definition res_is (a : arr T) (c : T) (r : res (arr T * arr T * T)) : Prop :=
-  match r with Ok (a', _, c') => a' = a /\ c' = c | _ => False end.
-Lemma res_is_if a c (cond : bool) x y : cond = true -> res_is a c y -> res_is a c (if negb cond then x else y).
-Proof. intros ->. exact (fun h => h). Qed.
-Lemma res_is_ex a c r : res_is a c r -> exists G, r = Ok (a, G, c).
-Proof. destruct r as [[[a' G] c']| |]; cbn; try contradiction. intros [-> ->]. exists G. reflexivity. Qed.
-
-Ltac let_intro :=
-  lazymatch goal with
-  | |- res_is ?a ?c (let x := ?v in @?F x) =>
-      let y := fresh x in pose (y := v); change (res_is a c (F y)); cbv beta
-  | |- (let x := ?v in @?F x) = ?r =>
-      let y := fresh x in pose (y := v); change (F y = r); cbv beta
-  end.
-
+(* characterisation of fteik2d used by everything below *)
 Lemma fteik2d_outside nsweep grad : inside2d = false -> fteik2d slow dz dx zsrc xsrc nsweep grad = Raise ValueError.
 Proof. intros Hin. cbv beta delta [fteik2d]. repeat let_intro. apply if_negb_false; [exact Hin | reflexivity]. Qed.
 
@@ -293,9 +303,8 @@ Qed.
 Theorem fteik2d_nsweep_iter nsweep grad :
   inside2d = true ->
   exists G, fteik2d slow dz dx zsrc xsrc nsweep grad =
-    Ok (fst (Nat.iter (Z.to_nat nsweep) (pass2d grad) (fst (fst (fst (fst (fst (fst (fst (fst (fst (init2d grad))))))))),
-                                                       snd (fst (fst (fst (fst (fst (fst (fst (fst (init2d grad))))))))))),
-        G, snd (fst (fst (fst (init2d grad))))).
+    Ok (fst (Nat.iter (Z.to_nat nsweep) (pass2d grad) (st_tt (init2d grad), st_ttsgn (init2d grad))),
+        G, st_vzero (init2d grad)).
 Proof. intros Hin. destruct (fteik2d_char nsweep grad) as [G E]. exists G. rewrite E, Hin. reflexivity. Qed.
 
 (* the traveltime component of a pass is a function of the traveltime component *)
@@ -355,7 +364,7 @@ Proof.
   - apply (sig_wf _ _ E). apply wf_full. repeat constructor; lia.
   - unfold sig in E. injection E as E _. exact E.
 Qed.
-Lemma init2d_tt grad : fst (fst (fst (fst (fst (fst (fst (fst (fst (init2d grad))))))))) = i_tt grad.
+Lemma init2d_tt grad : st_tt (init2d grad) = i_tt grad.
 Proof. reflexivity. Qed.
 
 (* degenerate model (a negative extent): the sweeps do nothing *)
